@@ -195,6 +195,12 @@ impl MScriptFile {
         Ok(())
     }
 
+    /// Export `name`, replacing what was exported under that name before. A class declared
+    /// inside a function or a loop body is declared anew every time that code runs.
+    pub fn set_export(&self, name: String, var: PrimitiveFlagsPair) {
+        self.exports.borrow_mut().set(name, var);
+    }
+
     pub fn get_export(&self, name: &str) -> Option<PrimitiveFlagsPair> {
         let exports = self.exports.borrow();
         exports.get(name)
